@@ -8,7 +8,9 @@ import (
 	"path/filepath"
 	"runtime"
 	"strings"
+	"sync"
 
+	sqlite3 "github.com/mattn/go-sqlite3"
 	"github.com/pegnet/pegnetd/config"
 	log "github.com/sirupsen/logrus"
 	"github.com/spf13/viper"
@@ -26,6 +28,19 @@ func New(conf *viper.Viper) *Pegnet {
 	p.Config = conf
 	return p
 }
+
+// driverName is the sqlite3 driver with cache spilling turned off. A block is
+// applied in one transaction, but many of its reads go through other pooled
+// connections. When a block dirties more pages than the page cache holds
+// (a holder snapshot over more than about ten thousand addresses is enough),
+// SQLite spills: it takes the exclusive lock on the database file in the
+// middle of the transaction and keeps it until COMMIT. From then on every
+// read on another connection fails with "database is locked", on every
+// attempt, so the block can never be applied. Without spilling the cache
+// simply grows for the duration of the block.
+const driverName = "sqlite3_pegnetd"
+
+var registerDriver sync.Once
 
 func (p *Pegnet) Init() error {
 	// The path should contain a $HOME env variable.
@@ -57,7 +72,13 @@ func (p *Pegnet) Init() error {
 	}
 
 	log.Infof("Opening database from '%s'", path)
-	db, err := sql.Open("sqlite3", openmode)
+	registerDriver.Do(func() {
+		sql.Register(driverName, &sqlite3.SQLiteDriver{ConnectHook: func(conn *sqlite3.SQLiteConn) error {
+			_, err := conn.Exec("PRAGMA cache_spill = OFF;", nil)
+			return err
+		}})
+	})
+	db, err := sql.Open(driverName, openmode)
 	if err != nil {
 		return err
 	}
